@@ -510,13 +510,17 @@ theorem parsePayload_noPanic (π : OneofOrder) (memo : Bytes) : (parsePayload π
           | none => exact Res.PanicsIn.err _
           | some v =>
             have key : Res.NoPanic (if (Json.obj fs).nullInArray = true then (Res.err "parse:null-in-array" : Res Payload)
+                else if (Json.obj fs).ambiguous = true then .err "parse:ambiguous-oneof"
                 else ((decWrapper π (Json.obj fs)).mapErr fun t => "parse:codec:" ++ t) >>= RawPayload.validate) := by
               apply Res.PanicsIn.ite
               · intro _; exact Res.PanicsIn.err _
               · intro hn
                 have hn' : (Json.obj fs).nullInArray = false := by simpa using hn
-                exact Res.PanicsIn.bind (Res.PanicsIn.mapErr _ (decWrapper_noPanic π _ hn'))
-                  (fun p _ => RawPayload.validate_noPanic p)
+                apply Res.PanicsIn.ite
+                · intro _; exact Res.PanicsIn.err _
+                · intro _
+                  exact Res.PanicsIn.bind (Res.PanicsIn.mapErr _ (decWrapper_noPanic π _ hn'))
+                    (fun p _ => RawPayload.validate_noPanic p)
             cases v with
             | null => exact Res.PanicsIn.err _
             | bool b => exact key
